@@ -2217,13 +2217,13 @@ def run(ctx):
                                    "licmF_hoisted_invariant", "licmF_kept_defs_variant", "cseC_never_hoists_div", "algopt_sound",
                                    "dceU_kept_uses_live", "dceU_removed_not_read", "dropped_loop_var_unused",
                                    "execL_irrelS", "fresh_prefix_preserves", "cse_preserves", "dceS_preserves", "dceL_preserves",
-                                   "ifshortcut_sound", "ifshortcut_requires_empty_branches"],
+                                   "ifshortcut_sound", "ifshortcut_requires_empty_branches", "licm_permutation"],
         "pending": ["CSE is proved for an if/else whose branches are statement blocks (cse_preserves); if/else nested inside branches and loops are validated only",
                     "lvn: proved for blocks of Binary/call/Break, SingleIf and IfElse (with final assignments) over statement blocks, and for a While over such a body (initial values, loop values, every fuel); deeper nesting (loops inside branches, branches inside branches) is validated only",
                     "inlining: proved for a callee whose body is a block of Binary/call statements (fresh-name renaming, parameter substitution, return move); callee bodies with control flow, the cost model and recursion guards are validated only",
                     "scalar replacement: no Lean model; validated by the interpreter on a deterministic struct/closure family (MIR level) and on the rich source family, per pass and per configuration",
                     "DCE is proved through SingleIf / IfElse over statement blocks (dceL_preserves) and for the While arm's loop-variable retention (dropped_loop_var_unused); the semantic statement for DCE of a While body (fuel induction) and deeper nesting are validated only",
-                    "LICM permutation equivalence (hoisted ++ kept behaves like the body); only trap-freedom of the hoisted prefix is proved",
+                    "LICM: permutation equivalence is proved for bodies of Binary / call statements (licm_permutation); for the other statement kinds only the hoisting rule (invariant operands, trap-free) is proved",
                     "inlining, LVN, scalar replacement, unused-name elimination, CCP/loop drivers: validated, not modelled"],
     })
     ctx.assumptions += ["dev build profile of the compiler (overflow checks on), as used by the repo's own tests",
